@@ -5,7 +5,7 @@ PROP = {
         "the harness mirror is a port of the real kernel's committing/voting/next-round view logic, view manager Output/MarkSent and HeightCommitted signal; the machine is only shown what that logic can produce for some honest network history (no equivocation, the machine's key is never forged)",
         "harness events are issued one at a time while the kernel sits in its main select (except strategy answers), so the order in which the machine handles them is the op order and not a Go select lottery",
         "strategy never returns a fatal error; the driver echoes height/round/hash of the request; the application's validator changes are a pure function of the height",
-        "schedules that reach a listed known finding (C08-A15..A18, C08-NODECIDE, C08-CHROUND) are excluded by construction and counted",
+        "schedules that reach a listed known finding (C08-A15..A18, C08-NODECIDE, C08-CHROUND, C08-JUMPROUND) are excluded by construction and counted",
     ],
     "units": [{
         "bin": "smsim", "pkg": "tm/tmengine/internal/tmstate", "inject": [("smsim", "tm/tmengine/internal/tmstate")],
